@@ -32,7 +32,7 @@ def session_keys(cfg, engine_id: bytes):
     return a["alg"], kul_a, p["alg"], derive(p)
 
 
-def history_plan(rng, tier, levels, silent_streak=False, identity_changes=True, big=True, force_salt=None, nsess=None, discover=None, ktypes=None, long_run=None):
+def history_plan(rng, tier, levels, silent_streak=False, identity_changes=True, big=True, force_salt=None, nsess=None, discover=None, ktypes=None, long_run=None, send_errors=True):
     """A v3 history: refresh, mixed requests, timeouts, decode errors, idle gaps,
     agent restarts and clock jumps."""
     eng = gen.engine_id(rng)
@@ -147,6 +147,11 @@ def history_plan(rng, tier, levels, silent_streak=False, identity_changes=True, 
     plan = {"flavour": rng.choice(["sync", "async"]), "agent": agent, "sessions": sessions, "ops": ops, "scripts": scripts, "latency_ns": gen.latency(rng, 1000, 2_000_000), "ready_order_seed": rng.randrange(2**31)}
     if len(sessions) > 1 and rng.random() < 0.5:
         plan["share_objects"] = True
+    if send_errors and rng.random() < 0.25:
+        # the local stack refuses to send one or two of the requests (EPERM, ENOBUFS, ENETUNREACH,
+        # ECONNREFUSED from an earlier ICMP): the call fails with OSError, the session lives on
+        ids = [o["id"] for o in plan["ops"] if "id" in o]
+        plan["send_errors"] = {"%d:1" % rng.choice(ids): rng.choice([1, 105, 101, 111]) for _ in range(rng.randint(1, 2))} if ids else {}
     if plan["flavour"] == "async":
         # the environment task cannot be interleaved deterministically with per-session idles: keep env ops out
         plan["ops"] = [o for o in ops if o["op"] != "agent"]
